@@ -5,6 +5,7 @@ import GeosModel.Proofs.Precision.RoundNE
 import GeosModel.Proofs.Precision.Glue
 import GeosModel.Proofs.Precision.HotPixelLemmas
 import GeosModel.Proofs.Precision.ReduceLemmas
+import GeosModel.Proofs.Precision.CollapseLemmas
 /-!
 # C04 — fixed-precision results are on the grid, valid, near exact, and never fail
 
@@ -212,5 +213,52 @@ theorem pointwise_moves_to_nearest (pm : PM) (g : G) :
     ∀ c : Coord, (roundC pm c).x = pm.makePreciseBits c.x ∧ (roundC pm c).y = pm.makePreciseBits c.y ∧
       (roundC pm c).z = c.z ∧ (roundC pm c).m = c.m :=
   ⟨skeleton_pointwise pm g, coords_pointwise pm g, by rw [coords_pointwise]; simp, roundC_spec pm⟩
+
+/-! ## 6. an operand that collapses completely
+
+Ported decision core of `OverlayNG::computeEdgeOverlay` (the two `setCollapsed` calls), `InputGeometry::locatePointInArea`,
+`OverlayLabeller::labelDisconnectedEdge` / `locateEdgeBothEnds` and `OverlayNG::isResultOfOp`
+(`Model/Precision/Collapse.lean`).  The API-level consequences are checked on the real operations by stream `collapse`. -/
+
+/-- a vertex chain (ring or line) keeps no edge under rounding iff all of its vertices round to one and the same point -/
+theorem chain_collapses_iff {α β : Type} [DecidableEq β] (rd : α → β) (chain : List α) :
+    Collapse.keepsEdge rd chain = false ↔ Collapse.allSame rd chain = true :=
+  Collapse.keepsEdge_false_iff rd chain
+
+/-- **collapsed_operand_is_exterior**: with the flags `computeEdgeOverlay` sets, an operand none of whose own edges
+survived noding is EXTERIOR at every point and for every disconnected edge of the other operand — the answer of the
+locator of its original, un-rounded geometry is never consulted; an operand that kept an edge is located by its own locator -/
+theorem collapsed_operand_is_exterior {P : Type} (hasEdgesFor empty area : Fin 2 → Bool)
+    (locator : Fin 2 → P → Collapse.Loc) (i : Fin 2) :
+    (hasEdgesFor i = false → ∀ orig dest : P,
+      Collapse.locatePointInArea (Collapse.inputAfterNoding hasEdgesFor empty area locator) i orig = .exterior ∧
+      Collapse.labelDisconnectedEdge (Collapse.inputAfterNoding hasEdgesFor empty area locator) i orig dest = .exterior) ∧
+    (hasEdgesFor i = true → empty i = false → ∀ pt : P,
+      Collapse.locatePointInArea (Collapse.inputAfterNoding hasEdgesFor empty area locator) i pt = locator i pt) :=
+  ⟨fun h orig dest => ⟨Collapse.locate_collapsed hasEdgesFor empty area locator i h orig,
+                       Collapse.label_collapsed hasEdgesFor empty area locator i h orig dest⟩,
+   fun h he pt => Collapse.locate_not_collapsed hasEdgesFor empty area locator i h he pt⟩
+
+/-- **collapse_laws**: where the second operand is EXTERIOR, intersection selects nothing and union, difference and
+symmetric difference select exactly the same edges (those not EXTERIOR to the first operand); where the first operand is
+EXTERIOR, intersection and difference select nothing and union and symmetric difference agree -/
+theorem collapse_laws (l : Collapse.Loc) :
+    (Collapse.isResultOfOp .intersection l .exterior = false ∧
+     Collapse.isResultOfOp .union l .exterior = decide (l ≠ .exterior) ∧
+     Collapse.isResultOfOp .difference l .exterior = decide (l ≠ .exterior) ∧
+     Collapse.isResultOfOp .symdifference l .exterior = decide (l ≠ .exterior)) ∧
+    (Collapse.isResultOfOp .intersection .exterior l = false ∧
+     Collapse.isResultOfOp .difference .exterior l = false ∧
+     Collapse.isResultOfOp .union .exterior l = decide (l ≠ .exterior) ∧
+     Collapse.isResultOfOp .symdifference .exterior l = decide (l ≠ .exterior)) :=
+  ⟨Collapse.ops_second_exterior l, Collapse.ops_first_exterior l⟩
+
+-- non-vacuity: a triangle inside one cell keeps no edge, one spanning two cells does (rounding = nearest integer of 10ths)
+example : Collapse.keepsEdge (fun p : Int × Int => ((p.1 + 5) / 10, (p.2 + 5) / 10)) [(47, 48), (53, 48), (50, 54), (47, 48)] = false := by decide
+example : Collapse.keepsEdge (fun p : Int × Int => ((p.1 + 5) / 10, (p.2 + 5) / 10)) [(47, 48), (57, 48), (50, 54), (47, 48)] = true := by decide
+-- the flag of operand 1 comes from operand 1's edges: A kept edges, B did not => only B is located EXTERIOR
+example :
+    let inp := Collapse.inputAfterNoding (P := Unit) (fun i => i = 0) (fun _ => false) (fun _ => true) (fun _ _ => .interior)
+    Collapse.labelDisconnectedEdge inp 1 () () = .exterior ∧ Collapse.labelDisconnectedEdge inp 0 () () = .interior := by decide
 
 end GeosModel.Precision
